@@ -1,15 +1,23 @@
 import inspect
 import typing
-from typing import Any, Dict, Optional, Tuple, Type, TypeVar
+from typing import Any, Dict, List, Optional, Tuple, Type, TypeVar
 from typing import get_args, get_origin
 
 
 def is_iterable(t: Type) -> bool:
     "Is this type iterable?"
-    while (t is not Any) and (not _is_iterable_direct(t)):
-        t = get_inherited(t)
+    return _find_iterable(t) is not Any
 
-    return t is not Any
+
+def _find_iterable(t: Type) -> Type:
+    "The iterable `t` is, or inherits from (looking through all its base classes) - or `Any`"
+    if t is Any or _is_iterable_direct(t):
+        return t
+    for b in _get_all_inherited(t):
+        r = _find_iterable(b)
+        if r is not Any:
+            return r
+    return Any  # type: ignore
 
 
 def _is_iterable_direct(t: Type) -> bool:
@@ -22,15 +30,26 @@ def _is_iterable_direct(t: Type) -> bool:
     return (
         isinstance(origin, type)
         and len(get_args(t)) == 1
-        and any(
-            c.__name__ == "ObjectStream" and c.__module__ == "func_adl.object_stream"
-            for c in origin.__mro__
-        )
+        and origin.__name__ == "ObjectStream"
+        and origin.__module__ == "func_adl.object_stream"
     )
 
 
+def _class_parameters(c) -> tuple:
+    "Type variables of a class, in declaration order (also for `class C(collections.abc.Iterable[T])`)"
+    params = getattr(c, "__parameters__", None)
+    if params is not None:
+        return tuple(params)
+    found = []
+    for b in getattr(c, "__orig_bases__", ()):
+        for p in getattr(b, "__parameters__", ()):
+            if p not in found:
+                found.append(p)
+    return tuple(found)
+
+
 def get_inherited(t: Type) -> Type:
-    """Returns the inherited type of `t`
+    """Returns the inherited type of `t` (the first one, if it has several base classes)
 
     Notes:
     * This works for 3.7 forward (but not back!)
@@ -41,12 +60,18 @@ def get_inherited(t: Type) -> Type:
     Returns:
         Type: The type for an inherited class, or `Any` if none can be found
     """
+    all_inherited = _get_all_inherited(t)
+    return all_inherited[0] if len(all_inherited) > 0 else Any  # type: ignore
+
+
+def _get_all_inherited(t: Type) -> List[Type]:
+    "All the base classes of `t`, given the types `t` gives them (see `get_inherited`)"
     if hasattr(t, "__orig_bases__"):
         base_classes = getattr(t, "__orig_bases__", None)
     elif hasattr(t, "__origin__") and hasattr(t.__origin__, "__orig_bases__"):
         base_classes = t.__origin__.__orig_bases__
     else:
-        return Any  # type: ignore
+        return []
 
     # `Generic[T]` only declares the type variables - there is no type to inherit from it
     # (and it can't be re-parameterized with actual types).
@@ -55,15 +80,16 @@ def get_inherited(t: Type) -> Type:
         for b in base_classes  # type: ignore
         if not (b is typing.Generic or get_origin(b) is typing.Generic)
     ]
-    if len(real_bases) == 0:
-        return Any  # type: ignore
-    r = real_bases[0]
+    return [_with_arguments_of(t, r) for r in real_bases]
 
+
+def _with_arguments_of(t: Type, r: Type) -> Type:
+    "The base class `r` of `t` as written (`MyIter[U]`), given the arguments `t` has (`MyIter[Jet]`)"
     g_args = get_args(t)
     if len(g_args) > 0 and get_origin(r) is not None:
         # The arguments of `t` fill in the type variables of `t`'s own class, in the order the
         # class declares them (which need not be the order the base class uses them in).
-        own_parameters = getattr(get_origin(t), "__parameters__", ())
+        own_parameters = _class_parameters(get_origin(t))
         mapping = {a.__name__: v for a, v in zip(own_parameters, g_args)}
 
         r_base = get_origin(r)
@@ -90,13 +116,15 @@ def unwrap_iterable(t: Type) -> Type:
     "Unwrap an iterable type"
     # Try to find an iterable in the history somehow
 
-    while (t is not Any) and (not _is_iterable_direct(t)):
-        t = get_inherited(t)
+    t = _find_iterable(t)
 
     if t == Any:
         return Any  # type: ignore
 
     a = get_args(t)
+    if len(a) == 0:
+        # `Iterable` written without an item type
+        return Any  # type: ignore
     assert len(a) == 1, f"Coding error - expected iterable type with a parameter, got {t}"
     return a[0]
 
@@ -118,19 +146,23 @@ def build_type_dict_from_type(t: Type, at_class: Optional[Type] = None) -> Dict[
         if at_class is not None:
             # A class that isn't parameterized itself can still inherit from a
             # parameterized one (`class JetVec(MyIter[Jet])`): look there.
-            inherited = Any if t is at_class else get_inherited(t)
-            if inherited is not Any:
-                return build_type_dict_from_type(inherited, at_class)
+            for inherited in [] if t is at_class else _get_all_inherited(t):
+                try:
+                    return build_type_dict_from_type(inherited, at_class)
+                except TypeError:
+                    pass
             raise TypeError(f"Could not find type {str(at_class)} in {str(t)}")
         return {}
 
     if at_class is not None and generic_type is not at_class:
-        try:
-            return build_type_dict_from_type(get_inherited(t), at_class)
-        except TypeError as e:
-            raise TypeError(f"Looked for generic parameters in {str(t)}") from e
+        for inherited in _get_all_inherited(t):
+            try:
+                return build_type_dict_from_type(inherited, at_class)
+            except TypeError:
+                pass
+        raise TypeError(f"Looked for generic parameters in {str(t)}")
 
-    for a in zip(generic_type.__parameters__, get_args(t)):
+    for a in zip(_class_parameters(generic_type), get_args(t)):
         d[a[0].__name__] = a[1]
     return d
 
@@ -157,6 +189,9 @@ def _resolve_type(t: Type, parameters: Dict[str, Type]) -> Optional[Type]:
         return None
 
     template_params = getattr(t, "__parameters__", None)
+    if isinstance(t, type):
+        # A generic class written without arguments (`-> Box`): nothing to fill in.
+        return t
     if template_params is not None and (len(template_params) > 0):
         resolved_params = [_resolve_type(p, parameters) for p in template_params]
         if None in resolved_params:
@@ -230,21 +265,12 @@ def get_method_and_class(class_object: Type, method_name: str) -> Optional[Tuple
     if not hasattr(class_object, "__mro__"):
         class_object = get_origin(class_object)  # type: ignore
 
-    # Walk the resolution hierarchy to find the method
-    found_obj = None
-    found_method = None
+    # Walk the resolution hierarchy to the class that defines the method (any of the base
+    # classes can be the one)
+    found_method = getattr(class_object, method_name, None)
+    if found_method is None:
+        return None
     for c in inspect.getmro(class_object):
-        m = getattr(c, method_name, None)
-        if found_method is None and m is None:
-            # We can't find the method!
-            return None
-        if found_method is None:
-            found_obj = c
-            found_method = m
-        else:
-            if found_method == m:
-                found_obj = c
-            else:
-                return (found_obj, found_method)  # type: ignore
-
-    return (found_obj, found_method)  # type: ignore
+        if method_name in vars(c):
+            return (c, found_method)
+    return (class_object, found_method)
